@@ -75,6 +75,17 @@ def histories(rng, tier):
     for i in range(40 if tier == "quick" else 600):
         hs.append((rng.randrange(1 << 30), history(rng, rng.choice([5, 20, 60]) if tier == "quick" else rng.choice([20, 100, 400]))))
     hs.append((rng.randrange(1 << 30), loop_history(rng, 200 if tier == "quick" else 2000)))
+    # nearly certain outcomes: a qubit turned by a tiny angle and measured, alone and in a loop, on 8-10 qubits; the
+    # collapse loses between 1e-9 and 1e-9 * 2^n of the norm, which normalize has to give back
+    for n in (8, 9, 10):
+        for rep in range(1 if tier == "quick" else 4):
+            b = rng.randrange(n)
+            deficit = rng.choice([3e-9, 2e-8, 1e-7]) * (1 << (n - 8))
+            theta = (8 * deficit) ** 0.5
+            acts = [("new", n), ("apply", ("h", ((1 << n) - 1) & ~(1 << b)))]
+            for _ in range(1 if rep == 0 else 12):
+                acts += [("apply", ("ry", theta, 1 << b)), ("measure", 1 << b), ("dump",), ("abs",)]
+            hs.append((rng.randrange(1 << 30), acts))
     # "any history": also under the rayon threading models, worker counts that do not divide the buffer included
     hs = regcheck.thread_mix(rng, hs, 0.3)
     hs += regcheck.threaded_core(rng, tier, sample=False)
